@@ -64,14 +64,22 @@ pub fn c01_workloads(thorough: bool) -> Vec<(Workload, usize)> {
     let mut w11 = wl("W11-rwnd4096-bidir-6x1100B", ro(), (0..6).flat_map(|i| [m(A, 0, 0, i * 2, 1100), m(B, 0, 0, i * 2 + 1, 1100)]).collect());
     w11.rwnd = Some(4096);
     w11.faults = vec![Fault::Drop, Fault::DupMany(4), Fault::DupLate(2), Fault::Delay(3)];
+    // a long burst of small messages (many chunks per packet): one lost packet leaves dozens of
+    // chunks buffered out of order behind the hole, and the retransmission that fills it may be the
+    // last DATA the receiver ever sees - everything buffered has to come out on that one arrival
+    let mut w12 = wl("W12-burst-80x200B", ro(), (0..80).map(|i| m(A, 0, 0, 0, 200 + (i % 3) as usize)).collect());
+    w12.faults = vec![Fault::Drop, Fault::Delay(3), Fault::DropBurst(2)];
+    let mut w13 = wl("W13-one-48000B", ro(), vec![m(A, 0, 0, 0, 48_000)]);
+    w13.faults = vec![Fault::Drop, Fault::Delay(3), Fault::DropBurst(2)];
     if thorough {
         vec![
+            (w12, 2), (w13, 2),
             (w10, 3), (w11, 2),
             (w1.clone(), 3), (w2, 3), (w3, 3), (w4, 3), (w6, 3), (w5, 2), (w7, 2), (w8, 2), (w9, 2),
             (Workload { name: "W1-bound4".into(), ..w1 }, 4),
         ]
     } else {
-        vec![(w1, 2), (w2, 1), (w3, 1), (w4, 1), (w6, 1), (w5, 1), (w7, 1), (w8, 1), (w9, 1), (w10, 2)]
+        vec![(w1, 2), (w2, 1), (w3, 1), (w4, 1), (w6, 1), (w5, 1), (w7, 1), (w8, 1), (w9, 1), (w10, 2), (w12, 1), (w13, 1)]
     }
 }
 
@@ -395,13 +403,13 @@ pub fn c13_workloads(thorough: bool) -> Vec<(Workload, usize)> {
         if rwnd > 8192 && !thorough {
             continue;
         }
-        if !thorough && rwnd == 4096 {
+        if !thorough && rwnd == 8192 {
             // quick double-fault plan over the two faults that make a sender's window knowledge
             // wrong (a SACK or DATA lost, a SACK overtaken): found two accounting defects that no
             // single fault exposes (see known_findings.json, C13 fixed entries)
             let mut w2 = w.clone();
-            w2.name = format!("{}-drop+delay-b2", w.name);
-            w2.faults = vec![Fault::Drop, Fault::Delay(3)];
+            w2.name = format!("{}-drop+delay+burst-b2", w.name);
+            w2.faults = vec![Fault::Drop, Fault::Delay(3), Fault::DropBurst(2), Fault::DropBurst(5)];
             v.push((w2, 2));
         }
         v.push((w, if thorough && rwnd <= 8192 { 2 } else { 1 }));
